@@ -843,6 +843,26 @@ def run(ctx, prog, crate):
     r12_5(ctx, prog, crate)
 
 
+def bench_closure_returns_value(ctx, rule):
+    """The generated runner hands Bencher::bench something whose value is the benchmarked function's output: the function
+    path itself, or a closure whose body (or the tail expression of its block) is the call. Outputs reach the Bencher only
+    this way - it holds them back and drops them after the end timestamp and the end barrier; a closure that discards the
+    value (`{ f(arg); }`) drops every output inside the timed section. Analysed on the macro expansions (engine E3, syn)."""
+    ensure_tool()
+    ctx.cfg = "expand"
+    n = 0
+    for t in targets(ctx.tier):
+        exp = expand_target(t)
+        for c in tool("benchcalls", exp)["calls"]:
+            if c["recv"] != "divan":
+                continue          # a call written by the user, not by the macro (the macro names its parameter `divan`)
+            n += 1
+            ctx.check(c["kind"] in ("path", "closure") and c["value"] == "value", rule, [t["name"], "bench-argument-yields-the-output", c["arg"][:60]],
+                      "the generated runner calls divan.bench(%s): the value of the benchmarked call is %s, so the output is dropped "
+                      "inside the timed closure" % (c["arg"][:80], c["value"]), t["name"])
+    ctx.anchor(rule, "divan.bench(..) calls in the macro expansions", n, 40)
+
+
 def run_extra(ctx):
     ensure_tool()
     ctx.cfg = "expand"
